@@ -150,6 +150,11 @@ class VGen(Gen):
             return out or (None if self.chance(0.7) else [])
         if ty == "int" and self.chance(0.15):
             return [{"k": "user", "pid": self.pid(), "fn": {"f": "addInt", "k": r.choice([1, -1, 10])}}]
+        if isinstance(ty, str) and ty in ("float", "bool", "decimal", "uuid", "date", "datetime") and self.chance(0.12):
+            # every scalar validator takes preprocessors: a user-written one that returns its argument, or a constant
+            # of the target type
+            fn = {"f": "id"} if self.chance(0.5) else {"f": "constv", "v": self.atom(ty)}
+            return [{"k": "user", "pid": self.pid(), "fn": fn}]
         return None
 
     def user_coercer(self, target: str) -> dict:
